@@ -524,6 +524,35 @@ func c15Shapes() []string {
 			}
 		}
 	}
+	// references by JSON pointer to places outside components: to themselves (the loader leaves such a reference unresolved) and to
+	// the same kind of element elsewhere in the document
+	{
+		rsp := `"responses":{"200":{"description":"ok"}}`
+		for _, d := range []string{
+			`"paths":{"/pets":{"get":{"parameters":[{"$ref":"#/paths/~1pets/get/parameters/0"}],` + rsp + `}}}`,
+			`"paths":{"/pets":{"parameters":[{"$ref":"#/paths/~1pets/parameters/0"}],"get":{` + rsp + `}}}`,
+			`"paths":{"/pets":{"get":{"parameters":[{"name":"q","in":"query","schema":{"type":"string"}},{"$ref":"#/paths/~1pets/get/parameters/0"}],` + rsp + `}}}`,
+			`"paths":{"/pets":{"get":{"parameters":[{"name":"q","in":"query","schema":{"type":"string"}}],` + rsp + `},"post":{"parameters":[{"$ref":"#/paths/~1pets/get/parameters/0"}],` + rsp + `}}}`,
+			`"paths":{"/pets":{"get":{"responses":{"200":{"$ref":"#/paths/~1pets/get/responses/200"}}}}}`,
+			`"paths":{"/pets":{"get":{"responses":{"200":{"description":"ok"},"404":{"$ref":"#/paths/~1pets/get/responses/200"}}}}}`,
+			`"paths":{"/pets":{"post":{"requestBody":{"$ref":"#/paths/~1pets/post/requestBody"},` + rsp + `}}}`,
+			`"paths":{"/pets":{"post":{"requestBody":{"content":{"application/json":{"schema":{"type":"object"}}}},` + rsp + `},"put":{"requestBody":{"$ref":"#/paths/~1pets/post/requestBody"},` + rsp + `}}}`,
+			`"paths":{"/pets":{"get":{"responses":{"200":{"description":"ok","content":{"application/json":{"schema":{"$ref":"#/paths/~1pets/get/responses/200/content/application~1json/schema"}}}}}}}}`,
+			`"paths":{"/pets":{"get":{"responses":{"200":{"description":"ok","content":{"application/json":{"schema":{"type":"object","properties":{"self":{"$ref":"#/paths/~1pets/get/responses/200/content/application~1json/schema"}}}}}}}}}}`,
+			`"paths":{"/pets":{"get":{"responses":{"200":{"description":"ok","headers":{"X-A":{"$ref":"#/paths/~1pets/get/responses/200/headers/X-A"}}}}}}}`,
+			`"paths":{"/pets":{"get":{"parameters":[{"name":"q","in":"query","schema":{"$ref":"#/paths/~1pets/get/parameters/0/schema"}}],` + rsp + `}}}`,
+			`"paths":{"/pets":{"get":{"parameters":[{"name":"q","in":"query","schema":{"type":"array","items":{"$ref":"#/paths/~1pets/get/parameters/0/schema"}}}],` + rsp + `}}}`,
+			`"paths":{"/pets":{"get":{` + rsp + `}}},"components":{"schemas":{"A":{"$ref":"#/components/schemas/A"}}}`,
+			`"paths":{"/pets":{"get":{` + rsp + `}}},"components":{"parameters":{"P":{"$ref":"#/components/parameters/P"}}}`,
+			`"paths":{"/pets":{"get":{` + rsp + `}}},"components":{"headers":{"H":{"$ref":"#/components/headers/H"}}}`,
+			`"paths":{"/pets":{"get":{` + rsp + `}}},"components":{"requestBodies":{"B":{"$ref":"#/components/requestBodies/B"}}}`,
+			`"paths":{"/pets":{"get":{` + rsp + `}}},"components":{"responses":{"R":{"$ref":"#/components/responses/R"}}}`,
+			`"paths":{"/pets":{"$ref":"#/paths/~1pets"}}`,
+			`"paths":{"/pets":{"get":{` + rsp + `}},"/cats":{"$ref":"#/paths/~1pets"}}`,
+		} {
+			out = append(out, head+d+"}")
+		}
+	}
 	// other goag extensions with odd values
 	for _, v := range []string{`""`, `"2006"`, `5`, `null`, `{}`, `"time.RFC3339"`} {
 		out = append(out, head+fmt.Sprintf(`"paths":{"/a":{"get":{"parameters":[{"name":"q","in":"query","schema":{"type":"string","format":"date-time","x-goag-go-time-format":%s}}],%s}}}}`, v, ok))
